@@ -46,3 +46,28 @@ rep('''	if len(out) >= 4 && out[0] == 0 && out[1] == 10 { // IPFIX: total length
 rep("// what the worker does with a decoded message (vflow/ipfix.go)", "// what the worker does with a decoded message (vflow/netflow_v9.go)")
 open(V + '/drivers/netflow9/decode_verif_test.go', 'w').write(s)
 print("generated drivers/netflow9/decode_verif_test.go")
+
+# ---- concurrency driver
+s = open(V + '/drivers/ipfix/conc_verif_test.go').read()
+rep("package ipfix\n", "package netflow9\n", 1)
+rep("// Concurrency driver for C10", "// GENERATED from drivers/ipfix/conc_verif_test.go by harness/gen_driver_v9.py - edit that.\n// Concurrency driver for C10")
+rep('''	set := append(append(cU16(2), cU16(4+len(rec))...), rec...)
+	msg := append(append([]byte{0, 10}, cU16(16+len(set))...), make([]byte, 12)...)
+	return append(msg, set...)''', '''	set := append(append(cU16(0), cU16(4+len(rec))...), rec...)
+	msg := append([]byte{0, 9, 0, 1}, make([]byte, 16)...)
+	return append(msg, set...)''')
+rep('''	set := append(append(cU16(id), cU16(4+len(body))...), body...)
+	msg := append(append([]byte{0, 10}, cU16(16+len(set))...), make([]byte, 12)...)
+	return append(msg, set...)''', '''	set := append(append(cU16(id), cU16(4+len(body))...), body...)
+	msg := append([]byte{0, 9, 0, 1}, make([]byte, 16)...)
+	return append(msg, set...)''')
+rep('''					var tr TemplateRecord
+					v := 0
+					if err := NewRPC(cache).Get(RPCRequest{ID: uint16(id), IP: e}, &tr); err == nil {
+						v = cVersionOf(tr)
+					}''', '''					v := 0
+					if tr, ok := cache.retrieve(uint16(id), e); ok { // (NetFlow v9 has no peer RPC: a plain lookup)
+						v = cVersionOf(tr)
+					}''')
+open(V + '/drivers/netflow9/conc_verif_test.go', 'w').write(s)
+print("generated drivers/netflow9/conc_verif_test.go")
